@@ -163,7 +163,10 @@ func (c *Cluster) Exec(a Action) bool {
 		}
 		return len(ms) > 0
 	case "releaselink":
-		n := c.net.ReleaseAll(a.Mode != "drop", func(m *Msg) bool { return m.from() == a.Node && m.to() == a.Node2 })
+		// Kind (optional) restricts the release to one kind of message, e.g. "RV": vote traffic passes, the rest stays parked
+		n := c.net.ReleaseAll(a.Mode != "drop", func(m *Msg) bool {
+			return m.from() == a.Node && m.to() == a.Node2 && (a.Kind == "" || m.Info.Kind == a.Kind)
+		})
 		return n > 0
 	case "submit":
 		c.Submit(a.Client, a.Node, a.Kind, time.Duration(a.Timeout)*time.Millisecond)
